@@ -108,9 +108,12 @@ fn stallers(ctx: &mut Ctx) {
     } else {
         world::swarm(ctx, SwarmOpts::default());
     }
-    let nstall = 1 + ctx.plan(3) as usize;
-    let extra_offs: Vec<usize> = (1..nstall).map(|_| ctx.plan(hb.len() as u64 + if kind == Kind::Req { 0 } else { 1 }) as usize).collect();
-    let extra_modes: Vec<Mode> = (1..nstall).map(|_| MODES[ctx.plan(3) as usize]).collect();
+    // 1..3 stallers as a rule; one disturbed case in sixteen has a crowd of 100..160 of them, all
+    // silent at the same time (a listener must not have a quota of unfinished handshakes)
+    let crowd = ctx.idx >= 54 * (hb.len() as u64 + 1) && kind != Kind::Req && ctx.plan(16) == 1;
+    let nstall = if crowd { 100 + ctx.plan(61) as usize } else { 1 + ctx.plan(3) as usize };
+    let extra_offs: Vec<usize> = (1..nstall).map(|_| ctx.plan(hb.len() as u64 + if kind == Kind::Req || crowd { 0 } else { 1 }) as usize).collect();
+    let extra_modes: Vec<Mode> = (1..nstall).map(|_| if crowd { Mode::Stop } else { MODES[ctx.plan(3) as usize] }).collect();
     let accept_error = ctx.idx >= 54 * (hb.len() as u64 + 1) && !ipc && ctx.plan(4) == 0;
     let out = Rc::new(RefCell::new(Out::default()));
     let o2 = out.clone();
@@ -186,7 +189,10 @@ fn stallers(ctx: &mut Ctx) {
                     keep.push(s);
                 }
             }
-            // a well-behaved client connecting DURING
+            // a well-behaved client connecting DURING (with a crowd: only once the crowd is complete)
+            if crowd && keep.len() < offs.len() {
+                continue;
+            }
             if !single || keep.len() + 1 >= offs.len() {
                 let mut g = RawPeer::connect(&ep).expect("connect");
                 let _ = g.hello(peer_type, None).await;
@@ -301,7 +307,7 @@ pub fn def() -> PropDef {
     PropDef {
         id: "C20",
         level: "fault_enumeration",
-        rule: "the case index enumerates bound socket type (9) x transport {tcp, ipc} x staller behaviour {stop sending, close, switch to garbage} x every byte offset 0..=N of greeting+READY at which the first staller acts; 0..2 further stallers with drawn offsets/behaviours; well-behaved clients connect before, during (after each staller) and after, an established peer exchanges traffic before and after; first undisturbed, then under drawn transport/schedule; judged at quiescence: every well-behaved client was admitted and exchanged a message, established traffic continues, exactly one AcceptFailed event per handshake that failed and none for silent stallers; distinct = distinct (cell, plan, schedule, transport)",
+        rule: "the case index enumerates bound socket type (9) x transport {tcp, ipc} x staller behaviour {stop sending, close, switch to garbage} x every byte offset 0..=N of greeting+READY at which the first staller acts; 0..2 further stallers with drawn offsets/behaviours (one disturbed case in sixteen: a crowd of 100..160 simultaneous silent stallers); well-behaved clients connect before, during (after each staller) and after, an established peer exchanges traffic before and after; first undisturbed, then under drawn transport/schedule; judged at quiescence: every well-behaved client was admitted and exchanged a message, established traffic continues, exactly one AcceptFailed event per handshake that failed and none for silent stallers; distinct = distinct (cell, plan, schedule, transport)",
         assumptions: &["REQ is judged with a single well-behaved client (its rotation would otherwise send the probe to another admitted peer)", "a staller that has sent the complete greeting+READY is a well-behaved silent peer, not a failure"],
         strata: vec![Stratum { name: "stallers", quick: 54 * n + 60_000, thorough: (54 * n * 100) * 20, exhaustive: (false, false), run: stallers, what: "stallers at every handshake byte offset, good clients before/during/after" }],
     }
